@@ -94,7 +94,13 @@ def _merge_sites(fn):
     return out
 
 
-@analysis("options", ["C13.a", "C12.d", "C12.b"])
+rule("C15.o", "the variables of an asset are determined by its parameters, not by the values of the price data: a set-up does not choose between "
+              "formulations (one or two variables per step, with or without on / start variables) by testing all(...) / any(...) on a vector that "
+              "may come from the price data (a parameter given as the name of a series) - a window fixed to a previous solution is carried over "
+              "by variable number, and 'all new price sets' includes one in which that series is zero", floor=3, props=["C15", "C10"])
+
+
+@analysis("options", ["C13.a", "C12.d", "C12.b", "C15.o"])
 def run(ctx):
     p = ctx.p
     # ================================================================= C13.a periodicity
@@ -232,3 +238,55 @@ def run(ctx):
         ctx.ob("C12.b", q, "reads main_time_unit", True if known else None,
                "new reader of main_time_unit: its formula has no declared time degree yet (eaocheck/rules/options.py UNIT_READERS)",
                node=n, ok_detail=UNIT_READERS.get(q, ""))
+
+
+    # ================================================================= C15.o formulation chosen by price values
+    n_o = 0
+    for fn in sorted(p.all_functions(), key=lambda f: f.qualname):
+        if fn.parent is not None or fn.cls is None or not p.is_subclass(fn.cls, "Asset") or fn.name != "setup_optim_problem":
+            continue
+        ff = ctx.flow(fn)
+
+        def price_vec(e, at, depth=0):
+            """attribute names through which `e` may carry values of the price data"""
+            out = set()
+            if depth > 5:
+                return out
+            for x in au.walk_local(e):
+                if isinstance(x, ast.Call) and au.method_name(x) == "make_vector":
+                    a0 = au.arg_or_kw(x, 0, "value")
+                    if a0 is not None and au.path(a0) and au.path(a0).startswith("self."):
+                        out.add(au.path(a0)[5:])
+                elif isinstance(x, ast.Subscript) and isinstance(x.value, ast.Name) and x.value.id == "prices":
+                    out.add(au.U(x.slice))
+                elif isinstance(x, ast.Name) and isinstance(x.ctx, ast.Load):
+                    for d in ff.defs(x.id, at):
+                        if d.kind == "assign" and d.value is not None and d.node is not at:
+                            out |= price_vec(d.value, d.node, depth + 1)
+            return out
+
+        seen = set()
+        for st in au.walk_stmts(fn.body):
+            test = st.test if isinstance(st, ast.If) else (st.value if isinstance(st, ast.Assign) and isinstance(st.targets[0], ast.Name) else None)
+            if test is None:
+                continue
+            if isinstance(st, ast.If) and all(isinstance(b0, (ast.Raise, ast.Assert, ast.Pass)) for b0 in st.body) and not st.orelse:
+                continue
+            for c in au.walk_local(test):
+                if not (isinstance(c, ast.Call) and au.method_name(c) in ("all", "any") and c.args and isinstance(c.args[0], ast.Compare)):
+                    continue
+                attrs = price_vec(c.args[0], st)
+                if not attrs:
+                    continue
+                key = "%s: %s" % (fn.cls.name, ", ".join(sorted(attrs)))
+                if (key, au.U(c)) in seen:
+                    continue
+                seen.add((key, au.U(c)))
+                n_o += 1
+                ctx.ob("C15.o", fn, au.short(c, 70), False,
+                       "%s decides the formulation (number and kind of variables) and its operand can hold values of the price data (%s may be given as the "
+                       "name of a series): with one price set the asset has T variables, with another 2 T - a fixed window carries the previous solution "
+                       "over by variable number, so the values are pinned to other variables (or the size assertion fires); 'infeasible' / wrong dispatch "
+                       "in the window" % (au.short(c, 40), ", ".join(sorted(attrs))), node=c, key="formulation of %s depends on %s(%s %s %s)" % (
+                           fn.cls.name, au.method_name(c), "/".join(sorted(attrs)), type(c.args[0].ops[0]).__name__, au.short(c.args[0].comparators[0], 10)))
+    ctx.require(n_o >= 3, "fewer than 3 formulation tests on vectors found in asset set-ups", rules=["C15.o"])
